@@ -26,3 +26,16 @@ def c08_units(tier):
 reg("C08", c08_units,
     "bounded symbolic model checking of ergo's own SSA: isReady/isBlocked/readyTasks/list and claim selection are executed symbolically over an N-slot symbolic graph and compared with the manual's sentences written as formulas; unsat = holds for every graph within the bound",
     ["graph slots: N items (quick 3, thorough 4); beyond that outside the claim"])
+
+
+# ---------------------------------------------------------------- C06
+def c06_units(tier):
+    return [
+        Unit("transition-table", ["c06.go"], "zzC06_Table", {}, bounds="all (from,to) state atoms; any claimant"),
+        Unit("set-step", ["c06.go"], "zzC06_SetStep", {"loop": 12}, bounds="store of 2 items; one task in any (state,claimant) obeying the claim rule; every subset of {title,body,epic,claim,state} with arbitrary values; agent present or not"),
+    ]
+
+
+reg("C06", c06_units,
+    "bounded symbolic model checking: one `set`/`claim`/`new` step decided by the real buildSetEvents (and callers) from an arbitrary store satisfying the claim rule, applied by the real replay loop; post-state checked against an independent copy of the documented transition table and the claim rule. One inductive step covers command sequences of any length.",
+    ["pre-state invariant I3 (six states + claim rule) is what the step itself re-establishes", "json.Marshal/Unmarshal modelled as key->atom boxes keyed by the struct tags read from the current source"])
